@@ -88,6 +88,10 @@ pub struct Connection {
     
     /// Client name (set via CLIENT SETNAME)
     pub name: Option<String>,
+    
+    /// Requests already parsed that arrived behind a blocking command; they run once the
+    /// client is served or timed out
+    pub deferred_frames: Vec<RespFrame>,
 }
 
 impl Connection {
@@ -115,6 +119,7 @@ impl Connection {
             transaction_state: TransactionState::default(),
             is_monitoring: false,
             name: None,
+            deferred_frames: Vec::new(),
         })
     }
     
